@@ -17,6 +17,7 @@ type PropConfig struct {
 	Packages    []string `json:"packages,omitempty"`    // every function of these packages (safety sweep)
 	Exclude     []string `json:"exclude,omitempty"`     // function keys excluded from the package sweep (with reason in notes)
 	OnlyTagged  bool     `json:"only_tagged,omitempty"` // count only clauses tagged with this property id
+	AlsoTags    []string `json:"also_tags,omitempty"`   // clauses tagged with these property ids count too (the property depends on them)
 	Kinds       []string `json:"kinds,omitempty"`       // restrict to obligation kinds with these prefixes
 	Analyses    []AnalysisSpec `json:"analyses,omitempty"` // solver-free inventory analyses over the SSA call graph
 	Assumptions []string `json:"assumptions"`
@@ -82,6 +83,15 @@ func ledgerName(name string) string {
 		}
 	}
 	return name
+}
+
+func inList(xs []string, x string) bool {
+	for _, y := range xs {
+		if y == x {
+			return true
+		}
+	}
+	return false
 }
 
 func hasTag(o *Obligation, id string) bool {
@@ -186,7 +196,15 @@ func cmdCheck(args []string) int {
 		var keep []*Obligation
 		for _, o := range r.Obls {
 			if !hasTag(o, id) {
-				continue
+				also := false
+				for _, t := range pc.AlsoTags {
+					if hasTag(o, t) {
+						also = true
+					}
+				}
+				if !also {
+					continue
+				}
 			}
 			if pc.OnlyTagged && len(o.Tags) == 0 && !o.Cover && strings.HasPrefix(o.Name, "safety/") {
 				// zero-annotation safety obligations are counted under C08 only;
@@ -370,7 +388,7 @@ func cmdCheck(args []string) int {
 	isKnown := func(f failure) *KnownFinding {
 		for i := range known {
 			k := &known[i]
-			if k.Property == id && k.Status == "known" && k.When == "" && k.Fn == f.fn && k.Obligation == f.name {
+			if (k.Property == id || inList(pc.AlsoTags, k.Property)) && k.Status == "known" && k.When == "" && k.Fn == f.fn && k.Obligation == f.name {
 				return k
 			}
 		}
